@@ -256,6 +256,15 @@ def check(runners, shard=60):
     return vlib.model_mismatches(HEADER, terms, 'check_chist', shard=shard, ctype=CTYPE)
 
 
+POLITE = ("From EIO Require Import ClientInv.\nDefinition check_polite (c : %s) : bool := let '(cfg, ops, _, _) := c in polite cfg ops init.\n" % CTYPE)
+
+
+def impolite(runners, shard=60):
+    """indices of histories that do not satisfy the hypothesis of ClientInv.lifecycle_alternates (no connect() while another waits for its handshake)"""
+    terms = [r.case_term() for r in runners]
+    return vlib.model_mismatches(HEADER + POLITE, terms, 'check_polite', shard=shard, ctype=CTYPE)
+
+
 def explain(r):
     return vlib.model_show(HEADER, 'diff_chist %s' % r.case_term())
 
